@@ -64,3 +64,28 @@ pub fn c15_events() {
         i += 1;
     }
 }
+
+/// concurrent part: the acknowledgement of (op, a) races with the registration of the same operation for the next target b
+/// (replicate_message_to_all registers and sends node by node, a fast first secondary acknowledges before the second
+/// registration); all interleavings at lock-acquisition granularity. Afterwards the operation must still be pending (b has not
+/// acknowledged), a duplicate ack of a changes nothing, and b's ack brings the count back to zero.
+pub fn c15_race() {
+    let n = mk_primary();
+    let (mut admin, mut rx) = admin_client(&n.dbs);
+    n.dbs.register_pending_opp(101, String::from("set k v"), &String::from("a"));
+    quiet_client(&admin); n.dbs.map.set_quiet(1);
+    let d1 = n.dbs.clone(); let d2 = n.dbs.clone();
+    let t1 = vsym::spawn(move || { let r = process_request("ack 101 a", &d1, &mut admin); (is_ok(&r), admin) });
+    let t2 = vsym::spawn(move || { d2.register_pending_opp(101, String::from("set k v"), &String::from("b")); true });
+    let (ok1, mut admin) = vsym::join(t1); vsym::join(t2);
+    vsym::check("race.ack-reply-ok", ok1);
+    // b was targeted and has not acknowledged: the operation is pending, whatever the order was
+    let m = n.dbs.get_pending_opp_copy(101);
+    vsym::check("race.still-pending-until-b-acks", m.is_some());
+    vsym::cover("race.ack-before-second-registration", match &m { Some(x) => x.count_acknowledged() <= 1, None => false });
+    vsym::check("race.pending-count", n.dbs.pending_opps.read().unwrap().len() == 1);
+    process_request("ack 101 a", &n.dbs, &mut admin);
+    vsym::check("race.duplicate-ack-changes-nothing", n.dbs.get_pending_opp_copy(101).is_some());
+    process_request("ack 101 b", &n.dbs, &mut admin);
+    vsym::check("race.back-to-zero", n.dbs.pending_opps.read().unwrap().len() == 0);
+}
